@@ -1,6 +1,7 @@
 import GoHeader.Sync.Trigger
 import GoHeader.Oracle.Common
 import GoHeader.Sync.Machine
+import GoHeader.Oracle.Ranges
 namespace GoHeader.Oracle
 open GoHeader GoHeader.Mach
 
@@ -166,6 +167,8 @@ def evalRestartSync (outs : List String) : Verdict :=
 
 /-- heads learned while a sync is running must be synced as well -/
 def evalBurst (ins outs : List String) : Verdict :=
+  if kv? ins "kind" == some "ranges" then evalRanges ins outs else
+  if kv? ins "kind" == some "emptiedwindow" then evalEmptiedWindow ins outs c03_store_ok else
   if kv? ins "kind" == some "restartsync" then evalRestartSync outs else
   if kv? ins "kind" == some "startwindow" then evalStartWindow outs else
   if kv? ins "kind" == some "tailabove" then evalTailAbove ins outs else
